@@ -2,8 +2,11 @@
 
 Spec: spec/LikeRules.tla (shared rules), spec/Likelihood.tla (mechanism + clauses),
       spec/MC_Likelihood.tla (toy worlds, exhaustive + simulated behaviours), spec/Trace_Likelihood.tla.
-Design level : exhaustive TLC on the toy world; two expected counterexamples (chi2 == 0 reported as NaN --
-               the as-built behaviour, ledger L-C06 -- and a narrowed except clause).
+Design level : exhaustive TLC on the toy worlds ("two": default priors; "mixed": set_prior priors living in the
+               other space than the parameter's mode, both directions); fault classes: the three exception
+               classes, "NaNAll" (NaN in every bin, no exception), "NaNSome"; four expected counterexamples
+               (chi2 == 0 reported as NaN -- the as-built behaviour, ledger L-C06 --, a narrowed except clause,
+               update_model exponentiating by the parameter's mode, an all-NaN model scored as chi2 = 0).
 Binding C    : TLC-simulated behaviours (sequences of prior / loglike calls with natural and injected
                invalid models) replayed on the callbacks the real NestleOptimizer, MultiNestOptimizer and
                PolyChordOptimizer hand to recording doubles of nestle.sample, pymultinest.run and
@@ -24,6 +27,7 @@ import numpy as np
 
 from ..core import Machinery, frac, close, run_tlc, validate_trace
 from .. import fx_retrieval as fx
+from .. import fx_like as fl
 
 SAMPLERS = ('nestle', 'multinest', 'polychord')
 REL = 1e-9
@@ -105,13 +109,14 @@ def make_optimizer(sampler, obs, model, tmpdir):
 # ----------------------------------------------------------------------------------------------
 
 def toy_bound(sampler, layout, tmpdir):
-    model = fx.make_toy(layout)
+    model = fl.make_toy(layout)
     obs = fx.make_toy_obs(layout)
     opt = make_optimizer(sampler, obs, model, tmpdir)
     w = fx.TOY[layout]
     for n, f in zip(w['names'], w['fit']):
         if f:
             opt.enable_fit(n)
+    fl.install_user_priors(opt, layout)          # "mixed": priors in the other space than the parameter's mode
     opt.compile_params()
     return Bound(sampler, opt, tmpdir), model
 
@@ -168,6 +173,12 @@ def replay_behaviour(ctx, sampler, beh, tmpdir):
             ok = math.isfinite(ret) and close(ret, exp, rel=REL, abs_=1e-12)
             ctx.verdict('valid_equals_gaussian', ok, cls=cls, detail='got %r expected %r (chi2/2 = %s)' %
                         (ret, exp, frac(step['h'])), vector=vec)
+        elif step['k'] == 'part':
+            # NaN in some bins: the statement is silent; non-finite, or the Gaussian over the comparable bins
+            exp = C - float(frac(step['h']))
+            ok = (not math.isfinite(ret)) or close(ret, exp, rel=REL, abs_=1e-12)
+            ctx.verdict('partial_nan_skips_or_nan', ok, cls=cls, detail='got %r; accepted: non-finite or %r' %
+                        (ret, exp), vector=vec)
         else:
             ok = not math.isfinite(ret)
             ctx.verdict('invalid_never_finite', ok, cls=cls, detail='got %r for an invalid model' % ret, vector=vec)
@@ -175,13 +186,17 @@ def replay_behaviour(ctx, sampler, beh, tmpdir):
             return
 
 
+FAULT_RUNS = (('InvalidModel', 'NaNAll'), ('InvalidChemistry', 'NaNSome'), ('InvalidTemperature', 'NaNAll'))
+
+
 def run_behaviours(ctx, nbeh, depth, layouts):
     tmpdir = tempfile.mkdtemp(prefix='c06_')
     try:
         total = 0
+        seen = set()
         for li, layout in enumerate(layouts):
-            for fi, fault in enumerate(('InvalidModel', 'InvalidChemistry', 'InvalidTemperature')):
-                cfg = make_sim_cfg(layout, fault, depth)
+            for fi, (fault, nanfault) in enumerate(FAULT_RUNS):
+                cfg = make_sim_cfg(layout, fault, nanfault, depth)
                 try:
                     res = run_tlc('MC_Likelihood', cfg, workers=1, simulate='num=%d' % nbeh, depth=depth,
                                   seed=ctx.seed * 101 + li * 7 + fi + 1)
@@ -195,23 +210,30 @@ def run_behaviours(ctx, nbeh, depth, layouts):
                 for bi, beh in enumerate(behs):
                     sampler = SAMPLERS[(bi + fi) % 3]
                     replay_behaviour(ctx, sampler, beh, tmpdir)
+                    seen |= {(layout, call_class(st)) for st in beh['hist']}
                     total += 1
                     ctx.traces += 1
                 if li == 0 and fi == 0:
                     ctx.add_sample(dict(behaviour=behs[0]))
+        # vacuity: every layout must have met a valid call, a natural invalid one and each injected fault class
+        for layout in layouts:
+            for c in ('prior', 'valid', 'natural-invalid', 'inject:NaNAll', 'inject:NaNSome', 'inject:InvalidModel'):
+                if (layout, c) not in seen:
+                    raise Machinery('simulated behaviours of layout %s never contain a %s call' % (layout, c))
         return total
     finally:
         shutil.rmtree(tmpdir, ignore_errors=True)
 
 
-def make_sim_cfg(layout, fault, depth):
+def make_sim_cfg(layout, fault, nanfault, depth):
     import os
     from ..core import SPEC, write_cfg
     with open(os.path.join(SPEC, 'SIM_Likelihood.cfg')) as f:
         text = f.read()
     text = text.replace('Layout = "two"', 'Layout = "%s"' % layout)
     text = text.replace('Depth = 9', 'Depth = %d' % depth)
-    text = text.replace('Faults = {"InvalidModel"}', 'Faults = {"%s"}' % fault)
+    text = text.replace('  Faults = {"InvalidModel"}', '  Faults = {"%s"}' % fault)
+    text = text.replace('NaNFaults = {"NaNAll"}', 'NaNFaults = {"%s"}' % nanfault)
     return write_cfg(text)
 
 
@@ -220,29 +242,6 @@ def make_sim_cfg(layout, fault, depth):
 # ----------------------------------------------------------------------------------------------
 
 EXC_NAMES = {'InvalidChemistryException': 'InvalidChemistry', 'InvalidTemperatureException': 'InvalidTemperature'}
-
-
-def fault_contribution_class():
-    from taurex.contributions import Contribution
-    from taurex.exceptions import InvalidModelException
-
-    class FaultContribution(Contribution):
-        """Contributes nothing; raises InvalidModelException when armed (fault injection)."""
-
-        def __init__(self):
-            super().__init__('Fault')
-            self.armed = False
-
-        def prepare_each(self, model, wngrid):
-            return iter(())
-
-        def prepare(self, model, wngrid):
-            if self.armed:
-                self.armed = False
-                raise InvalidModelException('injected fault')
-            super().prepare(model, wngrid)
-
-    return FaultContribution
 
 
 class RealWorld(object):
@@ -255,6 +254,10 @@ class RealWorld(object):
                    ('T_point1', 'lin', (500.0, 2500.0)), ('T_top', 'lin', (500.0, 1500.0)),
                    ('P_point1', 'log', (0.0, 7.0)), ('H2O', 'log', (-8.0, 1.0))],
     }
+    # prior-space ranges for a prior given through set_prior in the OTHER space than the parameter's mode
+    # (log10 ranges for linear-mode parameters, linear ranges for the log-mode mixing ratios)
+    CROSS = {'planet_radius': (-0.125, 0.125), 'T': (2.75, 3.25), 'T_surface': (3.0, 3.25), 'T_point1': (2.75, 3.375),
+             'T_top': (2.75, 3.125), 'H2O': (0.125, 1.125), 'CH4': (0.125, 0.875)}
     TRACKED = {'isothermal': ['planet_radius', 'T', 'H2O', 'CH4', 'planet_mass'],
                'npoint': ['planet_radius', 'T_surface', 'T_point1', 'T_top', 'P_point1', 'H2O', 'CH4', 'planet_mass']}
 
@@ -268,7 +271,7 @@ class RealWorld(object):
         if self.kind == 'npoint':
             for m in (self.model, self.twin):
                 m._temperature_profile._limit_slope = 450.0
-        self.fault = fault_contribution_class()()
+        self.fault = fl.nan_contribution_class()()
         self.model.add_contribution(self.fault)
         self.model.build()
         # observation: random bin layout, error bars; data = twin at a reference point + offsets
@@ -293,9 +296,18 @@ class RealWorld(object):
         for name, par in list(self.model.fittingParameters.items()):
             if par[5] and name not in [c[0] for c in chosen]:
                 self.opt.disable_fit(name)            # some parameters are fitted by default
+        self.xspace, self.range = {}, {}
         for name, space, (lo, hi) in chosen:
             self.opt.enable_fit(name)
             style = rng.random()
+            if style >= 0.7 and name in self.CROSS:
+                # a user prior in the other space than the parameter's mode (both directions)
+                space = 'lin' if space == 'log' else 'log'
+                lo, hi = self.CROSS[name]
+                style = 0.3 + (style - 0.7) * 2.0               # never the default prior: 0.3 <= style < 0.9
+            else:
+                style = style / 0.7
+            self.xspace[name], self.range[name] = space, (lo, hi)
             a = self.grid_point(lo, hi)
             b = self.grid_point(lo, hi)
             if a == b:
@@ -316,7 +328,7 @@ class RealWorld(object):
                     self.pri[name] = ('uniform', a, b)
             else:
                 mean = a
-                std = rng.choice([0.125, 0.25, 0.5]) if space == 'log' else (hi - lo) / rng.choice([8.0, 16.0])
+                std = rng.choice([0.125, 0.25, 0.5]) if (space == 'log' or hi - lo < 4) else (hi - lo) / rng.choice([8.0, 16.0])
                 if space == 'log':
                     self.opt.set_prior(name, LogGaussian(mean=mean, std=std))
                     self.pri[name] = ('loggauss', mean, std)
@@ -325,8 +337,8 @@ class RealWorld(object):
                     self.pri[name] = ('gauss', mean, std)
         self.opt.compile_params()
         self.fit = [p[0] for p in self.opt.fitting_parameters]      # the optimizer's order
-        self.space = {n: s for n, s, _ in cands}
-        self.range = {n: r for n, s, r in cands}
+        self.space = {n: s for n, s, _ in cands}               # the parameter's mode
+        self.cross = [n for n in self.fit if self.xspace[n] != self.space[n]]
         self.unf = [n for n in self.TRACKED[self.kind] if n not in self.fit]
         self.unf_space = {n: ('log' if self.model.fittingParameters[n][4] == 'log' else 'lin') for n in self.unf}
         self.bound = Bound(sampler, self.opt, tmpdir)
@@ -356,31 +368,46 @@ class RealWorld(object):
         for n in self.fit:
             lo, hi = self.range[n]
             r = self.rng.random()
-            if self.space[n] == 'log' and n in ('H2O', 'CH4') and r < 0.25:
-                x.append(self.rng.choice([0.0, 0.125, -0.125, 0.5]))       # mixing ratio near / above unity
+            sp = self.xspace[n]                                            # space of the prior = of x
+            if n in ('H2O', 'CH4') and r < 0.25:                           # mixing ratio near / above unity
+                x.append(self.rng.choice([0.0, 0.125, -0.125, 0.5] if sp == 'log' else [1.0, 1.125, 0.875, 1.5]))
             elif n == 'P_point1' and r < 0.2:
                 x.append(self.rng.choice([6.0, 6.5, -1.0, -1.5]))          # inverted pressure nodes
+            elif n == 'T' and sp == 'lin' and r < 0.12:
+                x.append(self.rng.choice([-250.0, 0.0]))                   # NaN in every bin, no exception
+            elif n == 'planet_radius' and sp == 'lin' and r < 0.06:
+                x.append(-0.5)                                             # NaN in every bin, no exception
             else:
                 x.append(self.grid_point(lo, hi))
         return x
 
     def oracle(self, x, inject):
         """Independent evaluation: second instance, public model[param] = value API, the observation's
-        own (second) binner, plain-Python Gaussian."""
+        own (second) binner, plain-Python Gaussian.  Returns (outcome, z of the comparable bins, chi2 over them);
+        outcome = "ok" | exception class | "NaNAll" (no bin comparable) | "NaNSome"."""
         from taurex.exceptions import InvalidModelException
         for n, xi in zip(self.fit, x):
             self.twin[n] = xi if self.pri[n][0] in ('uniform', 'gauss') else 10.0 ** xi
-        if inject:
+        if inject == 'raise':
             return 'InvalidModel', None, None
         try:
             g, s, _, _ = self.twin.model(wngrid=self.twin_obs.wavenumberGrid)
+            s = np.array(s, dtype=float)
+            if inject == 'NaNAll':
+                s[:] = np.nan
+            elif inject == 'NaNSome':
+                s[len(s) // 2:] = np.nan
             binned = self.twin_binner.bindown(g, s)[1]
         except InvalidModelException as e:
             return EXC_NAMES.get(type(e).__name__, 'InvalidModel'), None, None
+        if any(math.isinf(float(m)) for m in binned):
+            raise Machinery('oracle model gave an infinite bin (outside the generated classes)')
         z = [(float(d) - float(m)) / float(e) for d, m, e in
-             zip(self.twin_obs.spectrum, binned, self.twin_obs.errorBar)]
+             zip(self.twin_obs.spectrum, binned, self.twin_obs.errorBar) if float(m) == float(m)]
+        if not z:
+            return 'NaNAll', None, None
         chi2 = math.fsum(v * v for v in z)
-        return 'ok', z, chi2
+        return ('ok' if len(z) == len(binned) else 'NaNSome'), z, chi2
 
 
 def safe_log10(v):
@@ -403,7 +430,7 @@ def record_trace(ctx, rng, tid, sampler, tmpdir, ncalls, events, pyverdicts):
     w = RealWorld(rng, sampler, tmpdir)
     base = dict(tid=tid, S=S)
     events.append(dict(base, ev='setup', id=len(events), kinds=w.kinds(), par=w.par_scaled(), nfit=len(w.fit),
-                       proj=w.project(w.model), sampler=sampler))
+                       proj=w.project(w.model), sampler=sampler, cross=len(w.cross)))
     cls0 = '%s:%s' % (sampler, w.kind)
     for c in range(ncalls):
         if rng.random() < 0.3:
@@ -429,23 +456,23 @@ def record_trace(ctx, rng, tid, sampler, tmpdir, ncalls, events, pyverdicts):
         x = w.random_x()
         if c > 2 and rng.random() < 0.15 and w.last_valid_x is not None:
             x = list(w.last_valid_x)                      # revisit a point after other (possibly invalid) calls
-        inject = rng.random() < 0.1
+        r = rng.random()
+        inject = 'raise' if r < 0.1 else 'NaNAll' if r < 0.16 else 'NaNSome' if r < 0.22 else None
         before = w.project(w.model)
         oc, z, chi2 = w.oracle(x, inject)
-        if inject:
-            w.fault.armed = True
+        w.fault.armed = inject
         try:
             ret = float(w.bound.loglike(x))
             kind = 'num' if math.isfinite(ret) else 'nan'
             exc = None
         except Exception as e:   # noqa
             ret, kind, exc = float('nan'), 'raise', e
-        w.fault.armed = False
+        w.fault.armed = None
         after = w.project(w.model)
         big = False
         chi_obs = 0
         zs = []
-        if kind == 'num' and oc == 'ok':
+        if kind == 'num' and oc in ('ok', 'NaNSome'):
             chi_f = -2.0 * (ret - w.C)
             big = max(abs(v) for v in z) > 150 or chi_f > 1e5
             if not big:
@@ -455,16 +482,20 @@ def record_trace(ctx, rng, tid, sampler, tmpdir, ncalls, events, pyverdicts):
             big = True
         events.append(dict(base, ev='like', id=len(events), x=[scaled(v) for v in x], before=before, after=after,
                            oc=oc, ret=kind, chi=chi_obs, zs=zs, big=big))
-        label = 'inject' if inject else ('valid' if oc == 'ok' else oc)
-        cls = '%s:%s' % (cls0, label)
+        label = ('inject-%s:' % inject if inject else '') + ('valid' if oc == 'ok' else oc)
+        cls = '%s:%s%s' % (cls0, label, ':cross-space' if w.cross else '')
         if exc is not None:
             pyverdicts.append(('never_raises', False, cls, 'loglike(%r) raised %r' % (x, exc), tid))
             return
         if oc == 'ok':
             exp = w.C - chi2 / 2.0
             pyverdicts.append(('value_1e-9', kind == 'num' and close(ret, exp, rel=REL, abs_=1e-9), cls,
-                               'fit=%r x=%r got %r expected %r' % (w.fit, x, ret, exp), tid))
+                               'fit=%r priors=%r x=%r got %r expected %r' % (w.fit, w.kinds(), x, ret, exp), tid))
             w.last_valid_x = x
+        elif oc == 'NaNSome':
+            exp = w.C - chi2 / 2.0
+            pyverdicts.append(('partial_nan_skips_or_nan', kind == 'nan' or close(ret, exp, rel=REL, abs_=1e-9), cls,
+                               'fit=%r x=%r got %r; accepted: non-finite or %r' % (w.fit, x, ret, exp), tid))
         else:
             pyverdicts.append(('invalid_never_finite', kind == 'nan', cls,
                                'fit=%r x=%r (%s) got %r' % (w.fit, x, oc, ret), tid))
@@ -485,7 +516,7 @@ def run_traces(ctx, ntraces, ncalls):
         shutil.rmtree(tmpdir, ignore_errors=True)
     for clause, ok, cls, detail, tid in pyv:
         ctx.verdict(clause, ok, cls=cls, detail=detail, vector=dict(kind='trace', seed=ctx.seed, tid=tid, ntraces=ntraces, ncalls=ncalls))
-    slim = [{k: v for k, v in e.items() if k != 'sampler'} for e in events]
+    slim = [{k: v for k, v in e.items() if k not in ('sampler', 'cross')} for e in events]
     accepted, bad, res = validate_trace('Trace_Likelihood', 'Trace_Likelihood.cfg', slim)
     ctx.add_tlc('trace', res, counts=False)
     if res.postcondition_false and not bad:
@@ -504,10 +535,18 @@ def run_traces(ctx, ntraces, ncalls):
              (ntraces, len(events), nlike, ninv, sum(1 for e in events if e['ev'] == 'prior')))
     if ninv < 5 or nlike - ninv < 20:
         raise Machinery('trace generator produced too few valid/invalid calls (%d/%d)' % (nlike - ninv, ninv))
+    nall = sum(1 for e in events if e['ev'] == 'like' and e['oc'] == 'NaNAll')
+    nsome = sum(1 for e in events if e['ev'] == 'like' and e['oc'] == 'NaNSome')
+    ncross = sum(1 for e in events if e['ev'] == 'setup' and e['cross'])
+    ctx.note('real-model traces: %d all-NaN calls (no exception), %d partially-NaN calls, %d traces with a prior in the '
+             'other space than the parameter mode' % (nall, nsome, ncross))
+    if nall < 3 or nsome < 2 or ncross < 3:
+        raise Machinery('trace generator: too few all-NaN / partially-NaN calls or cross-space traces (%d/%d/%d)'
+                        % (nall, nsome, ncross))
     ctx.add_sample(dict(trace_event=next(e for e in slim if e['ev'] == 'like' and e['ret'] == 'num')))
     # canaries: corrupt one field of accepted events; TLC must reject
     goodl = [e for e in slim if e['ev'] == 'like' and e['tid'] not in badt and e['ret'] == 'num' and not e['big']]
-    goodn = [e for e in slim if e['ev'] == 'like' and e['tid'] not in badt and e['ret'] == 'nan']
+    goodn = [e for e in slim if e['ev'] == 'like' and e['tid'] not in badt and e['ret'] == 'nan' and e['oc'] != 'NaNSome']
     if not goodl or not goodn:
         if any(c['bad'] or c['known'] for c in ctx.clauses.values()):
             ctx.note('canary skipped: no accepted finite/NaN event left (violations already reported)')
@@ -537,12 +576,16 @@ def run(ctx):
     fx.load_optimizers()
     ctx.bounds = dict(
         tier=ctx.tier,
-        exhaustive='toy world(s) %s: 2-3 fitted parameters (linear + log prior) + 1 unfitted, 2 bins over 4 native points, '
-                   'all grid vectors x all injected fault classes x all unit-cube grid points, all call sequences'
-                   % ('two' if q else 'two, three'),
+        exhaustive='toy world(s) %s: 2-3 fitted parameters (linear + log prior; "mixed": user priors in the other space '
+                   'than the parameter mode, both directions) + 1 unfitted, 2 bins over 4 native points, '
+                   'all grid vectors x all injected fault classes (3 exception classes, NaN in all bins, NaN in one bin) '
+                   'x all unit-cube grid points, all call sequences'
+                   % ('two, mixed' if q else 'two, three, mixed'),
         behaviours='TLC -simulate, depth %d, three samplers, natural + injected invalid models' % (9 if q else 12),
         traces='real TransmissionModel (isothermal / N-point; H2O, CH4), 3-8 random bins, 1-4 fitted parameters, '
-               'Uniform/LogUniform/Gaussian/LogGaussian priors, points on a 1/8 grid')
+               'Uniform/LogUniform/Gaussian/LogGaussian priors (default, same space as the mode, other space), points on '
+               'a 1/8 grid; invalid: mixing ratio >= 1, inverted nodes, T <= 0 / negative radius (all-NaN spectrum), '
+               'injected exception / all-NaN / partially-NaN optical depth')
     ctx.assumptions = [
         'TLC + CommunityModules Json/IOUtils',
         'recording doubles call the callbacks with the conventions of nestle / PyMultiNest (in-place ctypes cube) / '
@@ -552,6 +595,7 @@ def run(ctx):
         'a second FluxBinner of the same observation, math.fsum / math.log; statistics.NormalDist for Gaussian priors',
         'FluxBinner itself is the subject of C05, not of this check']
     ctx.check_spec('exhaustive-two', 'MC_Likelihood', 'MC_Likelihood_quick.cfg', need_actions=('PriorCall', 'LogLike'))
+    ctx.check_spec('exhaustive-mixed', 'MC_Likelihood', 'MC_Likelihood_mixed.cfg', need_actions=('PriorCall', 'LogLike'))
     if not q:
         ctx.check_spec('exhaustive-three', 'MC_Likelihood', 'MC_Likelihood_thorough.cfg',
                        need_actions=('PriorCall', 'LogLike'))
@@ -559,7 +603,11 @@ def run(ctx):
     # non-vacuity of the clauses / design-level finding L-C06 (as-built mechanism)
     ctx.expect_refuted('asbuilt-chi2-zero', 'MC_Likelihood', 'MC_Likelihood_asbuilt.cfg', 'ValidEqualsGaussian')
     ctx.expect_refuted('narrow-except', 'MC_Likelihood', 'MC_Likelihood_narrow.cfg', 'NeverRaises')
-    n = run_behaviours(ctx, 40 if q else 400, 9 if q else 12, ('two',) if q else ('two', 'three'))
+    # update_model exponentiating by the parameter's mode instead of applying prior.prior (priors in the other space)
+    ctx.expect_refuted('write-by-parameter-mode', 'MC_Likelihood', 'MC_Likelihood_bymode.cfg', 'WrittenIsPriorOfX')
+    # a model that is NaN in every bin scored as chi2 = 0
+    ctx.expect_refuted('all-nan-scored-zero', 'MC_Likelihood', 'MC_Likelihood_allnan.cfg', 'InvalidNeverFinite')
+    n = run_behaviours(ctx, 30 if q else 300, 9 if q else 12, ('two', 'mixed') if q else ('two', 'three', 'mixed'))
     ctx.note('replayed %d simulated behaviours' % n)
     run_traces(ctx, 45 if q else 600, 14 if q else 20)
 
